@@ -70,7 +70,7 @@ PROP_BOOST = {
     'C02': {'set_property': 20, 'unset_property': 8, 'get_sliver': 10, 'sliver_copy': 6, 'set_properties': 4, 'prop_setter': 4,
             'update_labels': 3, 'update_capacities': 3},
     'C10': {'validate': 14, 'add_network_service': 14, 'connect_interface': 8, 'set_property': 8,
-            'node_add_network_service': 2, 'svc_add_interface': 4},
+            'node_add_network_service': 5, 'svc_add_interface': 9},
     'C11': {'collect_authz': 10, 'collect_log': 5, 'add_port_mirror_service': 10, 'add_facility': 5,
             'add_network_service': 12, 'roundtrip': 3, 'label_service_port': 6, 'validate': 4, 'add_component': 14},
     'C17': {'checkpoint': 3, 'diff_slivers': 22, 'edit_tracked': 14, 'respell_user_data': 6, 'set_property': 10, 'add_component': 12, 'remove_component': 6,
